@@ -1,5 +1,5 @@
 """C07 — input documents are never modified; transform returns a modified copy."""
-import random
+import random, re
 from ..engine import simple_run
 from ..gen.exprs import Gen
 from ..gen.common import gen_doc
@@ -74,6 +74,22 @@ def cases(tier, seed):
             if rng.random() < 0.35:
                 n += 1
                 out.append({'id': 'c%d' % n, 'kind': 'eval', 'expr': e.replace('nums', '$reg.nums').replace('objs', '$reg.objs').replace('strs', '$reg.strs'), 'input': {}, 'vars': {'reg': d}, 'tags': list(tags) + ['registered']})
+    # documents with SHARED sub-structures (the harness makes "head" a sub-slice of "all" with spare capacity, "same" the
+    # same slice as "all", "o2" the same object as "o"): writing through one name must not show through the other
+    sh_progs = ['$append(head, 99)', '$append(head, [7, 8])', '$append(head, all)', '$append(same, 1)', '$append($append(head, 1), 2)', '$sort(head, function($l, $r){$l > $r})', '$reverse(head)', '$sort(same, function($l, $r){$l < $r})',
+                '$zip(head, all)', '$distinct($append(head, all))', '$map(head, function($x){$x + 1})', '$filter(all, function($x){$x > 1})', '[head, all, same]', '$reduce(head, $append)', 'head ~> $append(5) ~> $append(6)',
+                '$ ~> |o|{"z": 1}|', 'o2 ~> |$|{"z": 1}, "k"|', '$merge([o, {"n": 1}])', '$merge([o, o2])', '$ ~> |$|{"all": $append(head, 0)}|', '$each(o, function($v, $k){$k})', '$sift(o2, function($v){true})', '{"x": $append(head, 4), "y": head}',
+                '$append(head, 99) ~> $append(100)', '($h := head; $append($h, 3))', '$shuffle(head)', 'head[[0, 1]]', '$append(head[0], all)', 'inner.$append(head, -1)', '$map([1, 2], function($i){$append($$.head, $i)})']
+    for e in sh_progs:
+        for L in ((3, 4, 5) if tier == 'quick' else (2, 3, 4, 5, 6, 7)):
+            allv = [rng.randint(0, 9) for _ in range(L)]
+            k = rng.randint(1, L - 1)
+            d = {'all': allv, 'head': allv[:k], 'same': list(allv), 'o': {'k': 1, 'v': [1, 2]}, 'o2': {'k': 1, 'v': [1, 2]}, 'inner': {'all': [5, 6, 7], 'head': [5]}}
+            tags = ('shared', 'unordered') if any(t in e for t in ('shuffle', 'each', 'sift', 'merge')) else ('shared',)
+            add(e, d, tags)
+            if rng.random() < 0.3:
+                n += 1
+                out.append({'id': 'c%d' % n, 'kind': 'eval', 'expr': re.sub(r'\b(head|all|same|o2|o|inner)\b', lambda m: '$reg.' + m.group(1), e), 'input': {}, 'vars': {'reg': d}, 'tags': list(tags) + ['registered']})
     # transforms and updates through a registered variable
     for i in range(60 if tier == 'quick' else 3000):
         d = doc()
@@ -90,6 +106,6 @@ def run(tier, seed, replay=None):
     return simple_run('C07', tier, seed, replay,
         'every array function that could work in place on every permutation of small arrays taken straight from the document and from a registered variable; transforms with context-relative patterns, updates and deletes (valid and ill-typed; updates and delete lists that differ per matched object), applied through ~>, $map, chains, bound to variables and called directly with wrong argument '
         'counts/types; built-ins that could reorder in place ($sort, $reverse, $append, $shuffle, $zip, $merge, $distinct, order-by, grouping); generated programs over every node type; '
-        'documents with nulls, empty containers and nested objects; after every evaluation (successful or failing) the caller\'s document is deep-compared with a copy taken before, '
+        'documents with nulls, empty containers, nested objects and SHARED sub-structures (sub-slices with spare capacity, one slice / one object under two names); after every evaluation (successful or failing) the caller\'s document is deep-compared with a copy taken before, '
         'and the transform result is compared with the model; distinct = distinct (expression, input)',
         cases, owner_direct=('immut',), panics_are='C09', unordered_tag='unordered')
